@@ -330,8 +330,8 @@ def gen_lowered(r):
         l2["max_stream_data"] = r.choice([0, 5, 50])
     if which in ("streams", "all"):
         sc2 = [1, 1]
-    early = [("send", sid, r.choice([300, 700]), False) for sid in r.sample([0, 4, 2, 8], r.randrange(1, 4))]
-    later = [("send", r.choice([0, 4, 2, 8]), r.choice([100, 400]), False) for _ in range(r.randrange(1, 4))]
+    early = [("send", sid, r.choice([300, 700]), False) for sid in r.sample([0, 4, 2, 8], r.randrange(0, 4))]
+    later = [("send", r.choice([0, 4, 2, 8, 12, 6]), r.choice([100, 400, 3000]), False) for _ in range(r.randrange(1, 5))]
     return {"lowered": True, "seed": r.randrange(1 << 30), "l1": l1, "l2": l2, "sc1": sc1, "sc2": sc2,
             "early": early, "later": later, "which": which, "reject": r.random() < 0.4,
             "lose_early": r.random() < 0.6}
@@ -397,7 +397,7 @@ def exec_lowered(p):
                 return
             names = {f["name"] for f in frames}
             if self.closed and not names <= CLOSE_ONLY:
-                problems.append(f"packet {pn} built after the connection was closed carries {sorted(names - CLOSE_ONLY)}")
+                problems.append((f"packet {pn} built after the connection was closed carries {sorted(names - CLOSE_ONLY)}", None))
             if names & {"TRANSPORT_CLOSE", "APPLICATION_CLOSE"}:
                 self.closed = True
             for f in frames:
@@ -412,15 +412,20 @@ def exec_lowered(p):
                 lim = max(l2["max_stream_data"], self.msd.get(sid, 0))
                 what = "accepted" if c.tls.early_data_accepted else "rejected"
                 head = f"{epoch} packet {pn} built after the server's handshake parameters (0-RTT {what}): "
+                # the recorded finding C06-0rtt-rejected-limits is about streams OPENED IN 0-RTT (their remembered per-stream
+                # limit / unblocked state survives the rejection); anything else - a stream opened after the handshake, the
+                # connection limit, a run without early data - is the latest limits simply not being applied
+                known = (not c.tls.early_data_accepted) and sid in self.early
+                tag = "0rtt-rejected" if known else None
                 if end > lim:
-                    problems.append(head + f"{f['name']} on stream {sid} up to offset {end} beyond the latest per-stream limit {lim} "
-                                    f"(remembered: {l1['max_stream_data']})")
+                    problems.append((head + f"{f['name']} on stream {sid} up to offset {end} beyond the latest per-stream limit {lim} "
+                                     f"(remembered: {l1['max_stream_data']}; stream {'opened in 0-RTT' if sid in self.early else 'opened after the handshake'})", tag))
                 elif sid // 4 >= self.ms[bool(sid & 2)]:
-                    problems.append(head + f"{f['name']} on stream {sid} beyond the latest stream count {self.ms[bool(sid & 2)]} "
-                                    f"(remembered: {sc1})")
+                    problems.append((head + f"{f['name']} on stream {sid} beyond the latest stream count {self.ms[bool(sid & 2)]} "
+                                     f"(remembered: {sc1}; stream {'opened in 0-RTT' if sid in self.early else 'opened after the handshake'})", tag))
                 elif sum(self.hi.values()) > self.md:
-                    problems.append(head + f"sum of highest offsets {sum(self.hi.values())} beyond the latest connection limit {self.md} "
-                                    f"(remembered: {l1['max_data']})")
+                    problems.append((head + f"sum of highest offsets {sum(self.hi.values())} beyond the latest connection limit {self.md} "
+                                     f"(remembered: {l1['max_data']})", None))
 
     lat = Latest()
     log.listeners.append(lat)
@@ -454,8 +459,8 @@ def exec_lowered(p):
     accepted = bool(c.tls.early_data_accepted)
     ce = c._close_event
     if accepted and lat.active and ce is None and sum(lat.hi.values()) > lat.md:
-        problems.append(f"0-RTT accepted, the connection stays open although the bytes sent ({sum(lat.hi.values())}) exceed the latest "
-                        f"connection limit {lat.md} of the server's handshake parameters (remembered: {l1['max_data']})")
+        problems.append((f"0-RTT accepted, the connection stays open although the bytes sent ({sum(lat.hi.values())}) exceed the latest "
+                         f"connection limit {lat.md} of the server's handshake parameters (remembered: {l1['max_data']})", None))
     if not accepted and lat.active and ce is None and s.server.conn._close_event is None:
         # 0-RTT rejected: the server received nothing of it; what the latest limits allow must get through
         delivered = sum(st.receiver.highest_offset for st in s.server.conn._streams.values())
@@ -463,13 +468,21 @@ def exec_lowered(p):
         allowed = [sid for sid in written if sid // 4 < lat.ms[bool(sid & 2)]
                    and min(lat.md, max(l2["max_stream_data"], lat.msd.get(sid, 0))) > 0]
         if delivered == 0 and allowed:
-            problems.append(f"0-RTT rejected: no stream byte reaches the server although its limits (connection {lat.md}, stream "
-                            f"{l2['max_stream_data']}, count {sc2}) allow data on streams {sorted(allowed)}; the client counts the rejected "
-                            f"0-RTT bytes against the new connection limit (used {c._remote_max_data_used} > limit {c._remote_max_data})")
+            # the recorded finding explains a stall only when rejected 0-RTT bytes are counted against the new limit
+            problems.append((f"0-RTT rejected: no stream byte reaches the server although its limits (connection {lat.md}, stream "
+                             f"{l2['max_stream_data']}, count {sc2}) allow data on streams {sorted(allowed)} "
+                             f"(bytes sent in 0-RTT: {sum(lat.early.values())}; used {c._remote_max_data_used}, limit {c._remote_max_data})",
+                             "0rtt-rejected" if sum(lat.early.values()) > 0 else None))
     state = {"closed": None if ce is None else int(ce.error_code), "accepted": accepted,
              "remote_max_data": c._remote_max_data, "used": c._remote_max_data_used}
-    cause = "server-lowered-params" if accepted else "0rtt-rejected"
-    return [(q, {"oracle": "wire-send-0rtt", "cause": cause}) for q in problems[:1]], oc, state
+    default = "server-lowered-params" if accepted else "latest-limits-not-applied"
+    out, seen = [], set()
+    for q, tag in problems:                    # the first problem of every cause
+        cause = tag or default
+        if cause not in seen:
+            seen.add(cause)
+            out.append((q, {"oracle": "wire-send-0rtt", "cause": cause}))
+    return out, oc, state
 
 
 def lowered_params(ctx, r, n, cases, impl_outs):
@@ -481,7 +494,18 @@ def lowered_params(ctx, r, n, cases, impl_outs):
                 dict(base, l2={"max_data": 100, "max_stream_data": 5000}),
                 dict(base, l2={"max_data": 10000, "max_stream_data": 5000}, sc2=[1, 1]),
                 dict(base, l2={"max_data": 10000, "max_stream_data": 50}, reject=True, lose_early=False),
-                dict(base, l2={"max_data": 10000, "max_stream_data": 5000}, sc2=[1, 1], reject=True)]
+                dict(base, l2={"max_data": 10000, "max_stream_data": 5000}, sc2=[1, 1], reject=True),
+                # resumed x rejected x NO early data x writes only after the handshake: the latest limits apply
+                dict(base, l2={"max_data": 20000, "max_stream_data": 1000}, l1={"max_data": 20000, "max_stream_data": 8000},
+                     reject=True, early=[], later=[("send", 0, 7004, False)]),
+                dict(base, l2={"max_data": 500, "max_stream_data": 5000}, reject=True, early=[], later=[("send", 0, 3000, False)]),
+                dict(base, sc2=[1, 1], l2={"max_data": 10000, "max_stream_data": 5000}, reject=True, early=[],
+                     later=[("send", 0, 100, False), ("send", 8, 100, False), ("send", 6, 100, False)]),
+                # ... and with early data on one stream: the streams opened AFTER the handshake still obey the latest limits
+                dict(base, l2={"max_data": 10000, "max_stream_data": 50}, reject=True, lose_early=False,
+                     early=[("send", 0, 300, False)], later=[("send", 4, 3000, False), ("send", 2, 3000, False)]),
+                dict(base, l2={"max_data": 10000, "max_stream_data": 50}, reject=False, early=[],
+                     later=[("send", 0, 3000, False)])]
     closed = refused = 0
     for i in range(n):
         p = directed[i] if i < len(directed) else gen_lowered(r)
@@ -627,7 +651,7 @@ def main(tier):
     fc.diff_cases(ctx, "flow-zero-rtt", cases, impl_outs)
     # 5. 0-RTT answered with SMALLER transport parameters, early data accepted (the client must refuse) or rejected
     cases, impl_outs = [], []
-    lowered_params(ctx, r, 12 if not thorough else 150, cases, impl_outs)
+    lowered_params(ctx, r, 18 if not thorough else 200, cases, impl_outs)
     fc.diff_cases(ctx, "flow-zero-rtt-lowered", cases, impl_outs)
     ctx.cov["rule"] = (
         "real QuicConnection after a real handshake; (1) every sequence of 3 actions from {write on 4 stream kinds, reset, "
@@ -639,7 +663,9 @@ def main(tier):
         "handshake parameters are BELOW the remembered ones (max_data / max_stream_data / stream counts / all), early data "
         "accepted or rejected, 0-RTT datagrams lost or delivered: oracle = the property on the wire after the parameters "
         "arrived + nothing but CONNECTION_CLOSE after a close + progress within the new limits after a rejection "
-        "(non-trivial there = refused with PROTOCOL_VIOLATION or early data rejected). Non-trivial = the wire reached a limit exactly AND (a retransmission was emitted OR a blocked "
+        "(non-trivial there = refused with PROTOCOL_VIOLATION or early data rejected); resumed x rejected x {no early data, early "
+        "data on some streams} x writes only after the handshake / on streams opened after it: the LATEST limits received apply "
+        "(only violations on streams that carried 0-RTT data belong to the recorded finding C06-0rtt-rejected-limits). Non-trivial = the wire reached a limit exactly AND (a retransmission was emitted OR a blocked "
         "stream was released by MAX_STREAMS); distinct by (config, script) hash."
     )
     ctx.cov["exhaustive"] = True
